@@ -198,7 +198,11 @@ def batch(core, mod, prop, seed, n, args, scratch, t0):
     total, truncated = core.run_many(mod, seed, n, args.workers, scratch, wall_cap=wall_cap, start_index=args.start)
     extra = getattr(mod, "extra_phase", None)
     extra_info = None
-    if extra is not None:
+    if extra is not None and (total.violations or total.harness) and not os.environ.get("VERIF_ALL_PHASES"):
+        # the sampled phase already has something to report: the further phases (systematic prefix, real processes) would
+        # only add to the bill - with a defect that makes calls block, every hung run costs its stall timeout
+        extra_info = {"skipped": "the sampled phase already reported violations; further phases not run"}
+    elif extra is not None:
         extra_info = extra(args.tier, seed, total, args.workers, scratch)
     wall_runs = time.monotonic() - t0
 
